@@ -105,7 +105,9 @@ func httpAnnounce(req tracker.AnnounceRequest, trackerID string, body []byte) (s
 	httpMu.Unlock()
 	raw := srv.URL + id
 	u, _ := url.Parse(raw)
-	tr := httptracker.New(raw, u, 5*time.Second, &http.Transport{}, "verif-agent", 1<<20)
+	tp := &http.Transport{}
+	defer tp.CloseIdleConnections() // thousands of cases per process: do not pile up idle connections
+	tr := httptracker.New(raw, u, 5*time.Second, tp, "verif-agent", 1<<20)
 	if trackerID != "" {
 		// first announce teaches the tracker id
 		httpMu.Lock()
